@@ -180,3 +180,54 @@ Print Assumptions code_db_key_translated.
 Theorem code_db_key_is_model : forall c S, Py_PeptidePoolSplitter.py_db_key c S = db_key c S.
 Proof. exact code_db_key_is_model_l. Qed.
 Print Assumptions code_db_key_is_model.
+
+(* ---- the order on source sets (VariantSourceSet.__gt__ and friends: it decides which header entry comes first and
+        therefore the database of a peptide) ---- *)
+From MoPep Require Gen.Py_VariantSourceSet.
+From MoPep Require Import Model.SrcOrder Proofs.Py2CoqSrcOrderProofs.
+
+Theorem code_source_order_translated :
+  Py_VariantSourceSet.py_src_gt_untranslated = false /\ Py_VariantSourceSet.py_src_ge_untranslated = false /\
+  Py_VariantSourceSet.py_src_lt_untranslated = false /\ Py_VariantSourceSet.py_src_le_untranslated = false.
+Proof. vm_compute. repeat split. Qed.
+Print Assumptions code_source_order_translated.
+
+(* body ties (docs/py2coq.md): the four comparison methods as translated from the source on every run *)
+Theorem code_src_gt_is_model : forall lv A B, Py_VariantSourceSet.py_src_gt lv A B = src_gt lv A B.
+Proof. exact code_src_gt_is_model_l. Qed.
+Print Assumptions code_src_gt_is_model.
+
+Theorem code_src_ge_is_model : forall lv A B,
+  Py_VariantSourceSet.py_src_ge lv A B = if set_eq A B then Ok true else src_gt lv A B.
+Proof. exact code_src_ge_is_model_l. Qed.
+Print Assumptions code_src_ge_is_model.
+
+Theorem code_src_lt_is_model : forall lv A B,
+  Py_VariantSourceSet.py_src_lt lv A B = if set_eq A B then Ok false else bind (src_gt lv A B) (fun g => Ok (negb g)).
+Proof. exact code_src_lt_is_model_l. Qed.
+Print Assumptions code_src_lt_is_model.
+
+Theorem code_src_le_is_model : forall lv A B,
+  Py_VariantSourceSet.py_src_le lv A B = bind (src_gt lv A B) (fun g => Ok (negb g)).
+Proof. exact code_src_le_is_model_l. Qed.
+Print Assumptions code_src_le_is_model.
+
+(* the comparison of sorted level lists (length first, then element-wise) is a STRICT TOTAL ORDER *)
+Theorem source_order_strict_total :
+  (forall a, ints_gt a a = false) /\
+  (forall a b, ints_gt a b = true -> ints_gt b a = false) /\
+  (forall a b c, ints_gt a b = true -> ints_gt b c = true -> ints_gt a c = true) /\
+  (forall a b, a = b \/ ints_gt a b = true \/ ints_gt b a = true).
+Proof. repeat split; [apply ints_gt_irrefl | apply ints_gt_asym | apply ints_gt_trans | apply ints_gt_total]. Qed.
+Print Assumptions source_order_strict_total.
+
+(* ... whereas `any(i > j ...)` (seeded change C18-7) is not even antisymmetric *)
+Theorem any_gt_order_refuted : exists a b, any_gt a b = true /\ any_gt b a = true.
+Proof. exact any_gt_not_antisymmetric. Qed.
+Print Assumptions any_gt_order_refuted.
+
+(* hence sorting level lists by the order is a function of the multiset: the order in which the entries of a header
+   arrive (file layout, hash order) cannot change the sorted sequence *)
+Theorem source_sort_layout_free : forall l l', Permutation l l' -> ksort l = ksort l'.
+Proof. exact ksort_layout_free_l. Qed.
+Print Assumptions source_sort_layout_free.
